@@ -29,7 +29,7 @@ def fork_run(fn, *args, timeout=None, **kwargs):
         code = 0
         try:
             os.close(r)
-            faulthandler.dump_traceback_later(timeout * 0.9, exit=True)
+            faulthandler.dump_traceback_later(timeout + 20, exit=True)   # last resort if the parent is gone
             try:
                 res = {"ok": True, "value": fn(*args, **kwargs)}
             except BaseException as e:  # harness-level failure inside the child
@@ -170,11 +170,18 @@ class ColdServer:
             _send_msg(sock, json.dumps(out).encode())
 
     def run(self, fn, *args, timeout=None, **kwargs):
+        if self.sock is None:
+            raise HarnessError("cold server unavailable after an earlier timeout")
         _send_msg(self.sock, json.dumps({"args": list(args), "kwargs": kwargs, "timeout": timeout}).encode())
         self.sock.settimeout((timeout or CHILD_TIMEOUT) + 10)
         try:
             msg = _recv_msg(self.sock)
         except socket.timeout:
+            # a late reply would be read as the answer to the NEXT job: give the server up
+            try:
+                self.sock.close()
+            finally:
+                self.sock = None
             raise HarnessError("cold server timed out")
         if msg is None:
             raise HarnessError("cold server died")
